@@ -260,11 +260,25 @@ func (r *c16Run) apply(i int, ev c16Ev, known map[*kPeer]bool) {
 		defer func() { r.w.onPreConnect = nil }()
 		if ev.Kind == "connect-redirected" {
 			dest = ev.Answer
-			if dest == prev {
-				return
-			}
 		}
 		dials := len(r.w.dialLog)
+		if ev.Kind == "connect-redirected" && dest == prev {
+			// the event redirects the request onto the server the player is already on: the EFFECTIVE
+			// destination decides, so this is "already connected" - no dial, nothing written, nothing in flight
+			r.cl.take()
+			res := r.connect(target, true)
+			r.settle()
+			if !res.done || res.status != AlreadyConnectedConnectionStatus || res.err != nil {
+				r.fail("redirected-to-current-status", "%s: a request redirected by the pre-connect event onto the current server returned done=%v status=%d err=%v", step, res.done, res.status, res.err)
+			}
+			if len(r.w.dialLog) != dials {
+				r.fail("redirected-to-current-dialled", "%s: a request redirected onto the current server dialled %v", step, r.w.dialLog[dials:])
+			}
+			if fr := r.cl.take(); len(fr) != 0 {
+				r.fail("redirected-to-current-wrote", "%s: a request redirected onto the current server wrote %d packets to the client", step, len(fr))
+			}
+			return
+		}
 		res := r.connect(target, true)
 		r.settle()
 		if ev.Kind == "connect-denied" {
@@ -537,6 +551,8 @@ func TestVerif(t *testing.T) {
 			c16Ev{Kind: "connect-current"},
 			c16Ev{Kind: "connect-denied", Target: "b"},
 			c16Ev{Kind: "connect-redirected", Target: "b", Answer: "c"},
+			c16Ev{Kind: "connect-redirected", Target: "b", Answer: "a"},
+			c16Ev{Kind: "connect-redirected", Target: "c", Answer: "b"},
 			c16Ev{Kind: "kick-play", Answer: "fallback-refuse"},
 			c16Ev{Kind: "kick-play"},
 			c16Ev{Kind: "close-play"},
